@@ -75,6 +75,15 @@ int main (int argc, char **argv)
   vh_tramp_call ((void (*)(void *)) p->code_exec, exn, &st);
   orc_executor_emulate (exe);
   printf ("counters %d %d %d\n", exn->counter1, exn->counter2, exn->counter3);
+  if (getenv ("PROBE_DUMP")) {
+    printf ("code at %p size %d\n", (void *) p->orccode->exec, p->orccode->code_size);
+    /* first bytes of every array as both runs left them (triage aid) */
+    for (i = 0; i < ORC_N_VARIABLES; i++) if (p->vars[i].size && (p->vars[i].vartype == ORC_VAR_TYPE_SRC || p->vars[i].vartype == ORC_VAR_TYPE_DEST)) {
+      int k; printf ("%-4s native:", p->vars[i].name); for (k = 0; k < 24; k++) printf (" %02x", an[i][k]);
+      if (p->vars[i].vartype == ORC_VAR_TYPE_DEST) { printf ("\n     emul. :"); for (k = 0; k < 24; k++) printf (" %02x", ae[i][k]); }
+      printf ("\n");
+    }
+  }
   for (i = 0; i < 6; i++) if (st.out[i] != st.seed[i]) { printf ("ABI: %s changed %#llx\n", vh_tramp_regname[i], (unsigned long long) st.out[i]); diff = 1; }
   if ((st.mxcsr_out & 0xffc0) != 0x1f80) { printf ("ABI: mxcsr %#x\n", st.mxcsr_out); diff = 1; }
   for (i = 0; i < ORC_N_VARIABLES; i++) {
